@@ -346,6 +346,8 @@ func (s *Service) ReferencedIncludes() ([]*Include, error) {
 			if err != nil {
 				return nil, err
 			}
+			// A default value may be the only mention of an include.
+			includesSet, includes = addValueIncludes(includesSet, includes, arg.Default, s.Frugal)
 		}
 		// Check return type.
 		if method.ReturnType != nil {
@@ -364,6 +366,37 @@ func (s *Service) ReferencedIncludes() ([]*Include, error) {
 	}
 
 	return includes, nil
+}
+
+// addValueIncludes checks the given constant value for identifiers which refer
+// to a constant or an enum value of an include (include.CONSTANT,
+// include.Enum.VALUE), also inside list and map literals, and adds those
+// includes to the given map and slice, returning the new map and slice.
+func addValueIncludes(includesSet map[string]*Include, includes []*Include, value interface{}, frugal *Frugal) (map[string]*Include, []*Include) {
+	switch v := value.(type) {
+	case Identifier:
+		pieces := strings.Split(string(v), ".")
+		if len(pieces) < 2 || (len(pieces) == 2 && hasEnumValue(frugal.Enums, pieces[0], pieces[1])) {
+			// A constant or an enum value of this file.
+			break
+		}
+		if include := frugal.Include(pieces[0]); include != nil {
+			if _, ok := includesSet[pieces[0]]; !ok {
+				includesSet[pieces[0]] = include
+				includes = append(includes, include)
+			}
+		}
+	case []interface{}:
+		for _, elem := range v {
+			includesSet, includes = addValueIncludes(includesSet, includes, elem, frugal)
+		}
+	case []KeyValue:
+		for _, pair := range v {
+			includesSet, includes = addValueIncludes(includesSet, includes, pair.Key, frugal)
+			includesSet, includes = addValueIncludes(includesSet, includes, pair.Value, frugal)
+		}
+	}
+	return includesSet, includes
 }
 
 // addInclude checks the given Type and adds any includes for it to the given
